@@ -455,6 +455,11 @@ def r5e_grid_counts_truncate(repo: Repo, rep):
                 if isinstance(n_, ast.Assign) and isinstance(n_.value, ast.Call) and attr_chain(n_.value.func) == "int" and n_.value.args \
                         and any(isinstance(x, ast.Call) and (attr_chain(x.func) or "").split(".")[-1] in ("sqrt", "cbrt", "pow") or (isinstance(x, ast.BinOp) and isinstance(x.op, ast.Pow)) for x in ast.walk(n_.value.args[0])):
                     counts.append(n_.value)
+                # a truncated root pushed up afterwards: max(int(sqrt(..)), 1) turns the 0 of a thin shape into 1 - the product of the side counts can then exceed n
+                if isinstance(n_, ast.Assign) and isinstance(n_.value, ast.Call) and attr_chain(n_.value.func) in ("max", "torch.clamp", "torch.clip") \
+                        and any(isinstance(x, ast.Call) and attr_chain(x.func) == "int" and any(isinstance(y, ast.Call) and (attr_chain(y.func) or "").split(".")[-1] in ("sqrt", "cbrt", "pow") for y in ast.walk(x))
+                                for x in ast.walk(n_.value)):
+                    counts.append(ast.Call(func=ast.Name(id="ceil", ctx=ast.Load()), args=[n_.value], keywords=[]))
             if not counts:
                 continue
             rep.saw(fi)
